@@ -110,8 +110,11 @@ def fwd (p : Parsed R) (s : Stored R) (lon lat : R) : R × R :=
     let sign : R := if northPolar then -1.0 else 1.0
     let sinLon := Scalar.sin (lon - lon0)
     let cosLon := Scalar.cos (lon - lon0)
-    let q := Ancillary.qs (Scalar.sin lat) e
-    let rho := a * Scalar.sqrt (qp + sign * q)
+    -- `qs` is odd: evaluated on the hemisphere of the aspect, `q` equals `qp` exactly at the pole;
+    -- next to the pole `qp - q` is zero up to roundoff, which may come out negative
+    let q := Ancillary.qs (-sign * Scalar.sin lat) e
+    let d := qp - q
+    let rho := a * Scalar.sqrt (if Scalar.lt d 0.0 then 0.0 else d)
     (x0 + rho * sinLon, y0 + sign * rho * cosLon)
   else
     let sinLon := Scalar.sin (lon - lon0)
